@@ -45,17 +45,19 @@ XSchema(t) ==
     \* K has a member of user-defined type: its tag name is NOT an example label of K (only void tags are)
     ("K" :> DUnion("nsb", "", TRUE, <<Tag("red", TVoid), Tag("green", TVoid), Tag("size", I32b), Tag("entry", TRef("L"))>>)) @@
     ("AL" :> DAlias("nsb", TList(TRef("L"), Unset, Unset), "")) @@
+    ("OL" :> DAlias("nsb", TNull(TRef("L")), "")) @@            \* an alias of a nullable struct
     ("Probe" :> DStruct("nsa", "", <<Fld("f1", t)>>, <<>>, FALSE))
 XExamples(x) ==
     ("L" :> <<Ex("default", "l1" :> XLit(VInt(10))), Ex("other", "l1" :> XLit(VInt(7)))>>) @@
-    ("Probe" :> <<Ex("default", "f1" :> x)>>) @@ ("K" :> <<>>) @@ ("A" :> <<>>) @@ ("AL" :> <<>>)
+    ("Probe" :> <<Ex("default", "f1" :> x)>>) @@ ("K" :> <<>>) @@ ("A" :> <<>>) @@ ("AL" :> <<>>) @@ ("OL" :> <<>>)
 
 ETypes == << I32b, F64b, Str13, StrP, TBool, TTs("f1"), TBytes(Unset, Unset),
              TList(I32b, Unset, 2), TList(TList(Str13, Unset, Unset), Unset, Unset), TMap(I32b),
              TMap(TList(Str13, Unset, Unset)), TNull(I32b), TNull(TRef("L")), TRef("L"), TRef("K"), TRef("A"),
              TList(TRef("L"), 1, Unset), TMap(TRef("K")), TNull(TList(TNull(I32b), Unset, Unset)),
              \* an alias of a list of structs; floats bounded on one side only
-             TRef("AL"), TFloat("Float64", Unset, 11), TFloat("Float64", 5, Unset), StrE, TList(StrE, Unset, Unset) >>
+             TRef("AL"), TFloat("Float64", Unset, 11), TFloat("Float64", 5, Unset), StrE, TList(StrE, Unset, Unset),
+             TRef("OL"), TNull(TRef("Probe")) >>       \* the last one lets an example refer to itself
 Int10 == XLit(VInt(10))
 StrOk == XLit(CStr(2, TRUE, 0))
 XExprs == { Int10, XLit(VInt(13)), XLit(VFloat(9)), XLit(VFloat(12)), StrOk, XLit(CStr(4, TRUE, 0)),
@@ -94,7 +96,10 @@ ExFits(sc, exs, t, x) ==
                                ELSE Worst3({ExFits(sc, exs, u.e, x.items[i]) : i \in DOMAIN x.items})
            [] u.k = "map"   -> IF x.k # "map" THEN "rej"
                                ELSE Worst3({ExFits(sc, exs, u.v, x.m[key]) : key \in DOMAIN x.m})
-           [] u.k = "ref"   -> IF x.k = "ref" THEN (IF x.label \in XLabels(sc, exs, u.n) THEN "acc" ELSE "rej") ELSE "rej"
+           [] u.k = "ref"   -> IF x.k = "ref"
+                               THEN (IF u.n = "Probe" /\ x.label = "default" THEN "unspec"     \* the example names itself: no finite value
+                                     ELSE IF x.label \in XLabels(sc, exs, u.n) THEN "acc" ELSE "rej")
+                               ELSE "rej"
            [] OTHER -> "rej"
 
 \* ------------------------------------------------------------- route attributes
@@ -208,9 +213,10 @@ RefFits(site, tag, p) ==
 \*        struct Sx, alias ARed = String @Blot, alias APlain = String;   nsb: annotation Fo = Omitted("f");  nsc: annotation Nc = Deprecated()
 ASites == {"field", "tag", "alias"}
 ATypesOf == {"String", "Int32", "Float64", "Boolean", "Bytes", "ListString", "MapString", "StringN", "Sx", "ARed", "APlain"}
-Anns == {"Om", "Om2", "Dep", "Prev", "Blot", "Hash", "Cust", "CustKw", "Zz", "nsb.Fo", "nsc.Nc", "nsz.Nc", "Sx", "nsb.Zz"}
+Anns == {"Om", "Om2", "Dep", "Prev", "Blot", "Hash", "Cust", "CustKw", "Zz", "nsb.Fo", "nsc.Nc", "nsz.Nc", "Sx", "nsb.Zz",
+         "nsb.Cu"}        \* a custom annotation defined in nsb, whose file comes after the one that uses it
 IsRedactor(a) == a \in {"Blot", "Hash"}
-Resolves(a) == a \in {"Om", "Om2", "Dep", "Prev", "Blot", "Hash", "Cust", "CustKw", "nsb.Fo"}
+Resolves(a) == a \in {"Om", "Om2", "Dep", "Prev", "Blot", "Hash", "Cust", "CustKw", "nsb.Fo", "nsb.Cu"}
 AnnFits(site, ty, a1, a2) ==
     LET as == IF a2 = "none" THEN {a1} ELSE {a1, a2} IN
     IF \E a \in as : ~Resolves(a) THEN "rej"                     \* the annotation must exist (in an imported namespace) and be an annotation
@@ -223,11 +229,11 @@ AnnFits(site, ty, a1, a2) ==
           \* (a field whose type is written as an alias: the documents do not say whether it may carry its own redactor)
           ELSE IF ty \in {"String", "Int32", "Float64", "StringN"} /\ Cardinality({a \in as : IsRedactor(a)}) = 1
                   /\ (site # "alias" \/ ty \in {"String", "Int32", "Float64"}) THEN
-               (IF as \ {"Blot", "Hash"} \subseteq {"Cust", "CustKw"} \/ site # "alias" THEN "acc" ELSE "unspec")
+               (IF as \ {"Blot", "Hash"} \subseteq {"Cust", "CustKw", "nsb.Cu"} \/ site # "alias" THEN "acc" ELSE "unspec")
           ELSE "unspec")
     ELSE IF site = "alias" THEN
          \* "Aliases ... can be marked at their definition with a redactor tag"; custom annotations work like built-in ones
-         (IF as \subseteq {"Cust", "CustKw"} THEN "acc" ELSE "unspec")
+         (IF as \subseteq {"Cust", "CustKw", "nsb.Cu"} THEN "acc" ELSE "unspec")
     ELSE IF {"Dep", "Prev"} \subseteq as \/ a1 = a2 THEN "unspec"
     ELSE "acc"
 
@@ -235,7 +241,8 @@ AnnFits(site, ty, a1, a2) ==
 \* nsa: annotation_type Note { importance String = "low" }, annotation_type Pair { x Int32; y Int32 };
 \* nsb (imported): annotation_type NoteB { level Int32 = 1 };  nsc (not imported): annotation_type NoteC { z Int32 = 1 }
 \* `annotation X = <ref>(<args>)`
-DefRefs == {"Omitted", "Deprecated", "RedactedBlot", "Note", "Pair", "nsa.Note", "nsb.NoteB", "nsc.NoteC", "nsz.Note", "Zz", "Sx"}
+DefRefs == {"Omitted", "Deprecated", "RedactedBlot", "Note", "Pair", "nsa.Note", "nsb.NoteB", "nsc.NoteC", "nsz.Note", "Zz", "Sx",
+            "Bad"}          \* annotation_type Bad declares a parameter without a type: no spec with it is legal
 DefArgs == {"none", "pos_s", "pos_i", "pos_ii", "pos_ss", "kw_importance", "kw_xy", "kw_x", "kw_zz", "mixed", "pos_iii"}
 \* parameters of the custom annotation types: <<name, kind ("s"/"i"), has default>>
 ParamsOf(r) == CASE r = "Note" -> << <<"importance", "s", TRUE>> >> [] r = "Pair" -> << <<"x", "i", FALSE>>, <<"y", "i", FALSE>> >>
@@ -252,7 +259,7 @@ AnnDefFits(r, a) ==
         ps == ParamsOf(r)
         poss == SelectSeq(args, LAMBDA x : x[1] = "")
         kws == SelectSeq(args, LAMBDA x : x[1] # "")
-    IN  IF r \in {"nsc.NoteC", "nsz.Note", "Zz", "Sx", "nsa.Note"} THEN "rej"      \* unknown, not imported, not an annotation type,
+    IN  IF r \in {"nsc.NoteC", "nsz.Note", "Zz", "Sx", "nsa.Note", "Bad"} THEN "rej"      \* unknown, not imported, not an annotation type,
                                                                               \* or the namespace naming itself
         ELSE IF r \in {"Omitted", "Deprecated", "RedactedBlot"} THEN
              \* built-in kinds: Omitted takes the caller name, Deprecated nothing, RedactedBlot an optional pattern
@@ -270,9 +277,10 @@ AnnDefFits(r, a) ==
 \* ------------------------------------------------------------- a name that is not a type, written where a type is expected
 \* nsa imports nsb; names: nsb (a namespace), Dep (an annotation), Note (an annotation type), ra (a route), Aa (alias of String, fine),
 \* Zz (undefined); the member may or may not have an example / default
-BadTypes == {"nsb", "Dep", "Note", "ra", "Aa", "Zz", "nsb.Tb", "nsb.Fo"}
+BadTypes == {"nsb", "Dep", "Note", "ra", "Aa", "Zz", "nsb.Tb", "nsb.Fo", "stone_cfg.Route"}
 TypeSites == {"field", "field_example", "tag", "alias", "route_arg", "list_item", "field_nullable"}
-TypeNameFits(site, n) == IF n \in {"Aa", "nsb.Tb"} THEN (IF site = "route_arg" /\ n = "Aa" THEN "unspec" ELSE "acc") ELSE "rej"
+TypeNameFits(site, n) == IF n = "stone_cfg.Route" THEN "unspec"        \* the attribute schema used as a data type: not documented
+                         ELSE IF n \in {"Aa", "nsb.Tb"} THEN (IF site = "route_arg" /\ n = "Aa" THEN "unspec" ELSE "acc") ELSE "rej"
 
 \* ------------------------------------------------------------- the machine
 Init == pick = [k |-> "none"]
